@@ -8,8 +8,12 @@ file CONTENTS (decoded text per path, or the message of the exception `Parser.re
 * `compareBodyOf` = `ContentComparer.compare` behind its `getParser` gate: the two `readFile` try-blocks, then
                     `Pipe.compareParsed` (duplicates, the loop over the key diff, checks, merge, `updateStats`), the
                     `print` of `merge` and the `OSError` of `create_merge_dir`.
-`Junk.junkid` is threaded through every parse.  Formats outside the pipeline model (DTD, Fluent, Android) are reported as
-`PyErr.external "UnmodelledFormat"`.
+`Junk.junkid` is threaded through every parse.  The external functions of the pipeline model (`Pipe.Ext`: expat's verdicts,
+`html.unescape`) are a PARAMETER `ext` of the world: the theorems hold for every value of it.  `compare` on formats whose
+comparison this composed world does not carry (DTD: the wire format of `c10.handle` has no table of expat verdicts and
+the pipeline model takes `extra_tests = None` while `compareProjects` passes "android-dtd"; Fluent, Android: no regex
+parser) is reported as `PyErr.external "UnmodelledFormat"`, as before the pipeline covered DTD (`Pipe.plainFmt`); for
+ini / inc / po / properties nothing consults `ext` (`PipeBridge.parseFile_ext_irrel`, `PipeBridge.compareFiles_ext_irrel`).
 -/
 import CLModel.Compare.Projects
 import CLModel.Compare.Pipeline
@@ -48,20 +52,21 @@ def lookupContent (cs : List (Path × Content)) (p : Option Path) : Option Conte
   | some p => (cs.find? (·.1 == p)).map (·.2)
 
 /-- `add`: `p.readFile(f); entities = p.parse()`, then the non-Junk entities and their words -/
-def parseRefOf (cs : List (Path × Content)) (full : Option Path) (name : Text) (junk : Nat) : Except Text (Nat × Nat) × Nat :=
+def parseRefOf (ext : Pipe.Ext) (cs : List (Path × Content)) (full : Option Path) (name : Text) (junk : Nat) :
+    Except Text (Nat × Nat) × Nat :=
   match lookupContent cs full, fmtOfName name with
   | some (.error msg), _ => (.error msg, junk)
   | some (.text t), some fmt =>
-    match Pipe.parseFile fmt t.toArray junk with
+    match Pipe.parseFile ext fmt t.toArray junk with
     | .error e => (.error (ofString ("model:" ++ e.name)), junk)
     | .ok (ents, junk') =>
       let real := ents.filter (fun e => !e.junk)
-      (.ok (real.length, (real.map (fun e => Cmp.countWords e.val)).sum), junk')
+      (.ok (real.length, (real.map (·.words)).sum), junk')
   | _, _ => (.error (ofString "model:no-content"), junk)
 
 /-- `ContentComparer.compare` behind the `getParser` gate, on the composed pipeline model of C05 -/
-def compareBodyOf (cs : List (Path × Content)) (md : List (Path × Text)) (c : Call) (junk : Nat) (obs : ObsList) :
-    Except ProjM.PyErr (ObsList × List Text × Nat) :=
+def compareBodyOf (ext : Pipe.Ext) (cs : List (Path × Content)) (md : List (Path × Text)) (c : Call) (junk : Nat)
+    (obs : ObsList) : Except ProjM.PyErr (ObsList × List Text × Nat) :=
   let notifyErr (f : File) (msg : Text) : Except ProjM.PyErr (ObsList × List Text × Nat) :=
     match obs.notify .error f (.str msg) with
     | .error e => .error (.observer e)
@@ -69,14 +74,14 @@ def compareBodyOf (cs : List (Path × Content)) (md : List (Path × Text)) (c : 
   match fmtOfName c.ref.file with
   | none => .error (.external "UnmodelledFormat")
   | some fmt =>
-    match Pipe.checkerOf fmt with
-    | none => .error (.external "UnmodelledFormat")
-    | some ck =>
+    match Pipe.plainFmt fmt with
+    | false => .error (.external "UnmodelledFormat")
+    | true =>
       match lookupContent cs c.refFull with
       | none => .error (.external "NoContent")
       | some (.error msg) => notifyErr c.ref msg        -- `p.readFile(ref_file)` raised
       | some (.text rt) =>
-        match Pipe.parseFile fmt rt.toArray junk with
+        match Pipe.parseFile ext fmt rt.toArray junk with
         | .error e => .error (.external e.name)
         | .ok (ref, junk1) =>
           match lookupContent cs (some c.l10nFull) with
@@ -87,10 +92,11 @@ def compareBodyOf (cs : List (Path × Content)) (md : List (Path × Text)) (c : 
               | .error e => .error (.observer e)
               | .ok (l, _) => .ok (l, [], junk1))
           | some (.text lt) =>
-            match Pipe.parseFile fmt lt.toArray junk1 with
+            match Pipe.parseFile ext fmt lt.toArray junk1 with
             | .error e => .error (.external e.name)
             | .ok (l10n, junk2) =>
-              let env : Pipe.Env := { fmt := fmt, ck := ck, file := c.l10n, mergeOn := c.merge.isSome, l10nText := lt.toArray }
+              -- the environment C05's `Pipe.compareFiles` builds: `getChecker(l10n)` with `checker.locale = l10n.locale`
+              let env : Pipe.Env := Pipe.envOf ext fmt c.l10n c.merge.isSome ref lt.toArray
               match Pipe.compareParsed env ref l10n obs with
               | .error e => .error (.external e.name)
               | .ok (obs', outcome) =>
@@ -105,7 +111,7 @@ def compareBodyOf (cs : List (Path × Content)) (md : List (Path × Text)) (c : 
 
 
 /-- the world of a run: enumerations, existing paths, merge directories that cannot be created and file contents -/
-def worldOf (cwd : Path) (enums : List (Option Text × Except ProjM.PyErr Files)) (existing : List Path)
+def worldOf (ext : Pipe.Ext) (cwd : Path) (enums : List (Option Text × Except ProjM.PyErr Files)) (existing : List Path)
     (md : List (Path × Text)) (cs : List (Path × Content)) : World where
   cwd := cwd
   projectFiles := fun loc =>
@@ -114,8 +120,8 @@ def worldOf (cwd : Path) (enums : List (Option Text × Except ProjM.PyErr Files)
     | none => .error (.external "no-enumeration")
   pathExists := fun p => existing.contains p
   parserCaps := capsOfName
-  parseRef := parseRefOf cs
-  compareBody := compareBodyOf cs md
+  parseRef := parseRefOf ext cs
+  compareBody := compareBodyOf ext cs md
   makeMergeDir := fun mf => (md.find? (·.1 == mf)).map (·.2)
 
 end ProjPipe
